@@ -118,6 +118,15 @@ def run_history(seed, knobs=None):
     T = rng.choice([0.5, 1.0])
     p_preempt = rng.choice([0.0, 0.1, 0.3])
     p_time = rng.choice([0.0, 0.05, 0.15])
+    # "burst" histories: every host of the plan gets an execution, all answers are held and then released back to back, so that several
+    # completions of one request (answers on the reactor thread, retry tasks ending in NoHostAvailable on executor threads) fall into the
+    # same virtual instant on different world threads, with a high preemption probability at the lock acquisitions
+    burst = rng.random() < 0.3
+    if burst:
+        nnodes = rng.choice([2, 2, 3])
+        addrs = ['127.0.0.%d' % (i + 1) for i in range(nnodes)]
+        spec_extra, spec_delay = nnodes - 1, 0.05
+        p_preempt, p_time = rng.choice([0.3, 0.5, 0.7]), 0.0
     ch = W.RandomChooser(random.Random(seed * 7 + 1), p_time=0.0, p_preempt=p_preempt)
     env = SimEnv(ch, addresses=addrs, max_steps=60000)
     plan = R.ReqPlan(env.world)
@@ -131,7 +140,8 @@ def run_history(seed, knobs=None):
 
     with env:
         world = env.world
-        retry = R.scripted_retry(seed * 13 + 5, weights=rng.choice([(3, 3, 2, 1), (1, 4, 2, 1), (4, 1, 1, 1), (1, 1, 4, 2)]))
+        retry = R.scripted_retry(seed * 13 + 5, weights=rng.choice([(1, 6, 1, 1), (0, 1, 0, 0), (2, 4, 1, 1)]) if burst else
+                                 rng.choice([(3, 3, 2, 1), (1, 4, 2, 1), (4, 1, 1, 1), (1, 1, 4, 2)]))
         prof = ExecutionProfile(load_balancing_policy=RoundRobinPolicy(), retry_policy=retry, request_timeout=T,
                                 speculative_execution_policy=ConstantSpeculativeExecutionPolicy(spec_delay, spec_extra) if spec_extra else None)
         cluster = env.cluster(protocol_version=rng.choice([3, 4, 4]), execution_profiles={EXEC_PROFILE_DEFAULT: prof})
@@ -144,9 +154,12 @@ def run_history(seed, knobs=None):
         specs = []
         for uid in range(1, nreq + 1):
             kind = rng.choices(['simple', 'bound', 'paged'], [5, 2, 3])[0]
-            idem = rng.random() < 0.85
+            idem = rng.random() < 0.85 or burst
 
             def actions(first_page, kind=kind):
+                if burst and first_page:
+                    out = [rng.choice(['hold', 'hold', R.held_err(rng.choice(R.RETRYABLE)), R.held_err(rng.choice(R.RETRYABLE))]) for _ in range(nnodes)]
+                    return out + [rng.choice(['rows', 'hold'])]
                 menu = [('rows', 5), ('hold', 4), ('late', 2 if first_page else 1), ('silent', 2), ('err', 5), ('held-err', 1), ('final', 1),
                         ('close', 1), ('reset', 1)]
                 if kind != 'paged':
@@ -304,7 +317,21 @@ def run_history(seed, knobs=None):
             count('later_page_fetches')
             return True
 
-        steps = rng.randint(3, 14)
+        if burst:
+            while to_start:
+                start(to_start.pop(0))
+            world.advance_to(world.now + spec_delay * spec_extra + rng.choice([0.01, 0.03]))
+            if rng.random() < 0.5:
+                rng.choice(list(mons.values())).watch('mid', rng.choice(['pair', 'cb-eb', 'eb-cb']))
+                count('mid_registrations')
+            c = held(('hold', 'hold-error'))
+            rng.shuffle(c)
+            for h in c:
+                h.release()
+            count('burst_histories')
+            count('burst_answers_released_together', len(c))
+            settle0()
+        steps = rng.randint(3, 14) if not burst else rng.randint(0, 4)
         for _ in range(steps):
             r = rng.random()
             if to_start and r < 0.3:
@@ -448,7 +475,7 @@ def run_history(seed, knobs=None):
             mon.frozen = True
         harness = list(world.errors) + [('parse', p) for p in env.net.parse_failures] + [('plan', u) for u in plan.unexpected]
         sig = tuple(x[:2] for x in world.trace)
-        info = {'seed': seed, 'nodes': nnodes, 'spec_extra': spec_extra, 'spec_delay': spec_delay, 'timeout': T, 'p_time': p_time, 'p_preempt': p_preempt,
+        info = {'seed': seed, 'burst': burst, 'nodes': nnodes, 'spec_extra': spec_extra, 'spec_delay': spec_delay, 'timeout': T, 'p_time': p_time, 'p_preempt': p_preempt,
                 'requests': [dict(s) for s in specs], 'retry_decisions': len(retry.calls), 'messages': len(plan.arrivals),
                 'answered': sum(1 for a in plan.arrivals if a['answered'] is not None)}
         hist = {}
@@ -512,4 +539,5 @@ def run(ctx):
     ctx.floor_distinct = 120 if ctx.quick else 2000
     ctx.floor_counters = {"histories": 150, "epochs_with_single_completion": 150, "registrations_compared": 300, "late_registrations_checked": 80,
                           "result_calls_compared": 100, "quiescence_checks_all_messages_answered": 150, "retry_decisions": 50,
-                          "later_page_fetches": 20, "timeout_elapsed_checks": 150}
+                          "later_page_fetches": 20, "timeout_elapsed_checks": 150, "burst_histories": 40,
+                          "burst_answers_released_together": 80}
